@@ -101,3 +101,15 @@ Definition land_constraint (cls : list (Q * Q) -> (Q * Q) -> Z) (bmin bx by_ : Q
                      | _, [] => f1
                      | _, _ => remove_cutout cls f1 nogo true kc1
                      end) dom))) nested.
+
+(* the three tests of the second loop, REGENERATED from shape.py (srcgen.if_test), are the expressions edge_step is written with: an edit of
+   the half-open vertex rule, of the collinearity test or of the flip rule is a broken obligation here *)
+Lemma edge_step_uses_the_regenerated_tests (p : pt) (e : edge) :
+  edge_step p e =
+  (let '(px, py) := p in let '((v1x, v1y), (v2x, v2y)) := e in
+   if between py v1y v2y then
+     if ppc_vertex_rule py v1y v2y then Skip
+     else let c := ppc_cross v1x px v2y py v2x v1y in
+          if ppc_on_line_rule c then OnEdge else if ppc_flip_rule v1y v2y c then Flip else Skip
+   else Skip).
+Proof. reflexivity. Qed.
